@@ -15,14 +15,14 @@ T=$(/venv/bin/python -m pytest -q -p no:cacheprovider --timeout=900 dds_tests 2>
 echo "== demo with the change"; /venv/bin/python OUT/demo.py > $OUT/demo_with.log 2>&1; DW=$?; echo "exit $DW"
 git apply -R $OUT/patch.diff; echo "== demo without the change"; /venv/bin/python OUT/demo.py > $OUT/demo_without.log 2>&1; DWO=$?; echo "exit $DWO"; git apply $OUT/patch.diff
 cd /verif
-git -C /tmp/mutrepo checkout -q -- . ; git -C /tmp/mutrepo checkout -q --detach $(git -C /repo rev-parse HEAD) ; git -C /tmp/mutrepo apply $OUT/patch.diff || { echo "PATCH DOES NOT APPLY"; exit 2; }
+git -C ${MUTREPO:-/tmp/mutrepo} checkout -q -- . ; git -C ${MUTREPO:-/tmp/mutrepo} checkout -q --detach $(git -C /repo rev-parse HEAD) ; git -C ${MUTREPO:-/tmp/mutrepo} apply $OUT/patch.diff || { echo "PATCH DOES NOT APPLY"; exit 2; }
 RES=""
 for C in $ID "$@"; do
   echo "== ./check $C with the change applied to /repo"
-  DDS_REPO=/tmp/mutrepo ./check $C 2>&1 | grep "VIOLATION\|^$C \|INFRA" | tee -a $OUT/check_$C.log
+  DDS_REPO=${MUTREPO:-/tmp/mutrepo} ./check $C 2>&1 | grep "VIOLATION\|^$C \|INFRA" | tee -a $OUT/check_$C.log
   RES="$RES $C:$(grep -c VIOLATION $OUT/check_$C.log)"
 done
-git -C /tmp/mutrepo checkout -q -- .
+git -C ${MUTREPO:-/tmp/mutrepo} checkout -q -- .
 echo "tests: $T | demo with: $DW without: $DWO | detected:$RES"
 python3 - "$ID" "$NAME" "$T" "$DW" "$DWO" "$RES" <<'PY'
 import json,sys,os
